@@ -113,6 +113,10 @@ def make_rows(names, sets, pattern, order):
     rows = [(c, a, b, strand_of(pattern, i)) for i, (c, a, b) in enumerate(rows)]
     if order == 'reversed':
         rows = rows[::-1]
+    elif order == 'interleaved':
+        # round robin over the chromosomes: rows are NOT grouped by chromosome, each chromosome's own rows keep their order
+        per = [[r for r in rows if r[0] == n] for n in names]
+        rows = [p[i] for i in range(max((len(p) for p in per), default=0)) for p in per if i < len(p)]
     return rows
 
 
